@@ -23,7 +23,8 @@
 EXTENDS Integers, Sequences, FiniteSets
 
 CONSTANTS Txn, Max, Expiry, GcPeriod, MaxNow,
-          Variant     \* "none" | "alias_gc" | "gc_keeps" | "ge_to_gt" | "dec_wrong" | "no_release" | "no_unregister"
+          Restarts,   \* how many times an old transaction id may be presented again (a new request with a known id)
+          Variant     \* "none" | "alias_gc" | "gc_keeps" | "ge_to_gt" | "dec_wrong" | "no_release" | "no_unregister" | "gc_wrong_key"
 
 Nil == [t |-> "-", exp |-> -1]
 
@@ -36,10 +37,11 @@ VARIABLES
     pc, early,           \* per transaction: control state, early flag
     epc, efound, emem,   \* enders: [Txn -> ["resp","err","drop","walk" -> state]] and their locals
     gpc, gsnap, glen, gi, galias, gitem, gcDue,
+    nrestart, admAt,     \* re-presentations so far; instant of the latest admission of each id (history)
     last
 
 ivars == <<now, arr, n, areq, amem, reg, pc, early, epc, efound, emem,
-           gpc, gsnap, glen, gi, galias, gitem, gcDue, last>>
+           gpc, gsnap, glen, gi, galias, gitem, gcDue, nrestart, admAt, last>>
 
 Enders == {"resp", "err", "drop", "walk"}
 
@@ -55,6 +57,7 @@ Init ==
     /\ efound = [t \in Txn |-> [e \in Enders |-> FALSE]]
     /\ emem = [t \in Txn |-> [e \in Enders |-> Nil]]
     /\ gpc = "idle" /\ gsnap = <<>> /\ glen = 0 /\ gi = 0 /\ galias = FALSE /\ gitem = Nil /\ gcDue = FALSE
+    /\ nrestart = 0 /\ admAt = [t \in Txn |-> 0]
     /\ last = [ev |-> "init"]
 
 Members == {arr[i] : i \in 1..n}
@@ -102,7 +105,15 @@ PcAfter(t, e) == IF e = "walk" THEN [pc EXCEPT ![t] = "ended"] ELSE pc
 SAdd(t, e) ==
     LET m == [t |-> t, exp |-> now + Expiry] IN
     /\ pc[t] = "idle"
-    /\ IF Full
+    /\ IF areq[t] = "allowed"
+       THEN \* Inc: "already processed" (a stale status entry of an earlier transaction with this id);
+            \* Allowed answers from that entry: admitted without touching the member set
+            /\ pc' = [pc EXCEPT ![t] = IF e THEN "ending" ELSE "held"]
+            /\ reg' = IF e THEN reg ELSE [reg EXCEPT ![t] = TRUE]
+            /\ epc' = IF e THEN [epc EXCEPT ![t]["drop"] = "d1"] ELSE epc
+            /\ last' = [ev |-> "sadd", t |-> t, out |-> IF e THEN "early" ELSE "admit"]
+            /\ UNCHANGED <<arr, n, amem, early, gsnap, galias>>
+       ELSE IF Full
        THEN /\ pc' = [pc EXCEPT ![t] = "ending"]
             /\ reg' = reg                                   \* registered by GetQuota, popped by OnRequestDrop
             /\ epc' = [epc EXCEPT ![t]["drop"] = IF Variant # "no_release" THEN "d1" ELSE "done",
@@ -117,7 +128,8 @@ SAdd(t, e) ==
             /\ last' = [ev |-> "sadd", t |-> t, out |-> "-"]
             /\ IF Realloc THEN GcKeepsOld ELSE UNCHANGED <<gsnap, galias>>
             /\ UNCHANGED epc
-    /\ UNCHANGED <<now, areq, efound, emem, gpc, glen, gi, gitem, gcDue>>
+    /\ admAt' = IF areq[t] = "allowed" \/ ~Full THEN [admAt EXCEPT ![t] = now] ELSE admAt
+    /\ UNCHANGED <<nrestart, now, areq, efound, emem, gpc, glen, gi, gitem, gcDue>>
 
 \* Inc: setReqStatus(reqAllowed) + member ; Allowed: the status check.
 \* Answered early by a later processor: GenerateResponse -> OnRequestDrop, then the walk.
@@ -132,7 +144,7 @@ SetSt(t) ==
             /\ epc' = [epc EXCEPT ![t]["drop"] = IF Variant # "no_release" THEN "d1" ELSE "done",
                                   ![t]["walk"] = IF Variant # "no_release" THEN "idle" ELSE "d1"]
     /\ last' = [ev |-> "setst", t |-> t, out |-> o]
-    /\ UNCHANGED <<now, arr, n, amem, efound, emem, gpc, gsnap, glen, gi, galias, gitem, gcDue>>
+    /\ UNCHANGED <<nrestart, admAt, now, arr, n, amem, efound, emem, gpc, gsnap, glen, gi, galias, gitem, gcDue>>
 
 -------------------------------------------------------------------------------
 \* the ways a slot is given back.  Ender e of transaction t:
@@ -150,7 +162,7 @@ StartEnd(t, e) ==
             /\ epc' = [epc EXCEPT ![t][e] = IF reg[t] /\ Variant # "no_release" THEN "d1" ELSE "done"]
        ELSE /\ UNCHANGED reg
             /\ epc' = [epc EXCEPT ![t][e] = "d1"]
-    /\ UNCHANGED <<now, arr, n, areq, amem, pc, early, efound, emem, gpc, gsnap, glen, gi, galias, gitem, gcDue>>
+    /\ UNCHANGED <<nrestart, admAt, now, arr, n, areq, amem, pc, early, efound, emem, gpc, gsnap, glen, gi, galias, gitem, gcDue>>
 
 \* Dec step 1: read the status map
 D1(t, e) ==
@@ -163,7 +175,7 @@ D1(t, e) ==
             /\ UNCHANGED <<reg, pc>>
        ELSE /\ epc' = AfterEnder(t, e, epc) /\ reg' = RegAfter(t, e) /\ pc' = PcAfter(t, e)
             /\ UNCHANGED <<efound, emem>>
-    /\ UNCHANGED <<now, arr, n, areq, amem, early, gpc, gsnap, glen, gi, galias, gitem, gcDue>>
+    /\ UNCHANGED <<nrestart, admAt, now, arr, n, areq, amem, early, gpc, gsnap, glen, gi, galias, gitem, gcDue>>
 
 \* Dec step 2: SRem of the member read in step 1 (if the status is still `allowed`)
 D2(t, e) ==
@@ -171,7 +183,7 @@ D2(t, e) ==
     /\ last' = [ev |-> "d2", t |-> t, e |-> e]
     /\ IF areq[t] = "allowed" THEN DoSRem(emem[t][e]) ELSE UNCHANGED <<arr, n>>
     /\ epc' = [epc EXCEPT ![t][e] = "d3"]
-    /\ UNCHANGED <<now, areq, amem, reg, pc, early, efound, emem, gpc, gsnap, glen, gi, galias, gitem, gcDue>>
+    /\ UNCHANGED <<nrestart, admAt, now, areq, amem, reg, pc, early, efound, emem, gpc, gsnap, glen, gi, galias, gitem, gcDue>>
 
 \* Dec step 3: delete from the status map; the ender is finished
 D3(t, e) ==
@@ -181,7 +193,7 @@ D3(t, e) ==
     /\ efound' = [efound EXCEPT ![t][e] = FALSE] /\ emem' = [emem EXCEPT ![t][e] = Nil]   \* (locals die)
     /\ epc' = AfterEnder(t, e, epc) /\ reg' = RegAfter(t, e) /\ pc' = PcAfter(t, e)
     /\ last' = [ev |-> "d3", t |-> t, e |-> e]
-    /\ UNCHANGED <<now, arr, n, early, gpc, gsnap, glen, gi, galias, gitem, gcDue>>
+    /\ UNCHANGED <<nrestart, admAt, now, arr, n, early, gpc, gsnap, glen, gi, galias, gitem, gcDue>>
 
 -------------------------------------------------------------------------------
 \* the GC goroutine
@@ -194,7 +206,7 @@ G1 ==   \* allowedRequests := SMembers(...)
        ELSE gsnap' = SubSeq(arr, 1, n) /\ galias' = FALSE       \* a copy
     /\ gitem' = Nil
     /\ last' = [ev |-> "gc", step |-> "snapshot"]
-    /\ UNCHANGED <<now, arr, n, areq, amem, reg, pc, early, epc, efound, emem, gcDue>>
+    /\ UNCHANGED <<nrestart, admAt, now, arr, n, areq, amem, reg, pc, early, epc, efound, emem, gcDue>>
 
 GItem == IF galias THEN arr[gi] ELSE gsnap[gi]
 
@@ -208,26 +220,43 @@ G2 ==   \* next member: expired? -> SRem
             IF m # Nil /\ now > m.exp /\ Variant # "gc_keeps"
             THEN /\ DoSRem(m) /\ gitem' = m /\ gpc' = "del" /\ UNCHANGED <<gi, gcDue>>
             ELSE /\ gi' = gi + 1 /\ UNCHANGED <<arr, n, gitem, gpc, gcDue>>
-    /\ UNCHANGED <<now, areq, amem, reg, pc, early, epc, efound, emem, gsnap, glen, galias>>
+    /\ UNCHANGED <<nrestart, admAt, now, areq, amem, reg, pc, early, epc, efound, emem, gsnap, glen, galias>>
 
 G3 ==   \* delete(allowedReq, member.ReqID)
     /\ gpc = "del"
-    /\ areq' = [areq EXCEPT ![gitem.t] = "none"]
+    /\ areq' = IF Variant = "gc_wrong_key" THEN areq ELSE [areq EXCEPT ![gitem.t] = "none"]
     /\ gpc' = "iter" /\ gi' = gi + 1
     /\ last' = [ev |-> "gc", step |-> "del"]
-    /\ UNCHANGED <<now, arr, n, amem, reg, pc, early, epc, efound, emem, gsnap, glen, galias, gitem, gcDue>>
+    /\ UNCHANGED <<nrestart, admAt, now, arr, n, amem, reg, pc, early, epc, efound, emem, gsnap, glen, galias, gitem, gcDue>>
+
+\* the id of a transaction that is over (ended, or abandoned and reclaimed after its expiry) is presented again
+Over(t) == \/ pc[t] = "ended"
+           \/ (pc[t] = "held" /\ (\A e \in Enders : epc[t][e] \in {"idle", "done"})
+                /\ ((\E x \in {"resp", "err"} : epc[t][x] = "done") \/ (~Holds(t) /\ now > admAt[t] + Expiry)))
+Restart(t) ==
+    /\ nrestart < Restarts /\ Over(t)
+    /\ gpc = "idle" /\ ~gcDue          \* (assumption) the re-presentation does not race a GC pass
+    /\ nrestart' = nrestart + 1
+    /\ pc' = [pc EXCEPT ![t] = "idle"]
+    /\ epc' = [epc EXCEPT ![t] = [e \in Enders |-> "idle"]]
+    /\ efound' = [efound EXCEPT ![t] = [e \in Enders |-> FALSE]]
+    /\ emem' = [emem EXCEPT ![t] = [e \in Enders |-> Nil]]
+    /\ last' = [ev |-> "restart", t |-> t]
+    /\ UNCHANGED <<admAt, now, arr, n, areq, amem, reg, early, gpc, gsnap, glen, gi, galias, gitem, gcDue>>
 
 \* the timer fires every GcPeriod ticks; the clock waits for a pass in progress
 Advance ==
     /\ now < MaxNow /\ ~gcDue /\ gpc = "idle"
+    /\ \A t \in Txn : pc[t] # "setst"      \* (assumption) the two steps of a request's Inc take less than a tick
     /\ now' = now + 1
     /\ gcDue' = ((now + 1) % GcPeriod = 0)
     /\ last' = [ev |-> "adv"]
-    /\ UNCHANGED <<arr, n, areq, amem, reg, pc, early, epc, efound, emem, gpc, gsnap, glen, gi, galias, gitem>>
+    /\ UNCHANGED <<nrestart, admAt, arr, n, areq, amem, reg, pc, early, epc, efound, emem, gpc, gsnap, glen, gi, galias, gitem>>
 
 Next ==
     \/ Advance \/ G1 \/ G2 \/ G3
     \/ \E t \in Txn : \/ \E e \in BOOLEAN : SAdd(t, e)
+                      \/ Restart(t)
                       \/ SetSt(t)
                       \/ \E e \in Enders : StartEnd(t, e) \/ D1(t, e) \/ D2(t, e) \/ D3(t, e)
 
@@ -255,6 +284,11 @@ OnceOnlyI == [][\A t \in Txn : (Holds(t) /\ ~Holds(t)') =>
 
 \* ExpiryBound: after a completed GC pass no member is left whose expiry lies before the pass
 ExpiryI == (~gcDue /\ gpc = "idle") => \A m \in Members : (now - (now % GcPeriod)) <= m.exp
+
+\* an admitted transaction holds a slot until one of its ends starts or its expiry passes
+\* (a re-presented id is a new request: it is not admitted on the strength of an old admission)
+HeldHasSlotI == \A t \in Txn :
+    (pc[t] = "held" /\ (\A e \in Enders : epc[t][e] = "idle") /\ now <= admAt[t] + Expiry) => Holds(t)
 
 \* the association map does not keep ended transactions
 RegCleanI == \A t \in Txn : EndedT(t) => ~reg[t]
